@@ -45,10 +45,11 @@ QUICK_ALPHABET = ['X1', 'Y1', 'XY', 'EMPTY', 'BADJSON', 'BADPERM', 'RESERVED', '
 def plan(tier):
     depth = 4 if tier == 'quick' else 5
     return {
-        'level': 'exploration', 'shards': 16, 'budget_s': 80 if tier == 'quick' else 900, 'exhaustive': True,
+        'level': 'exploration', 'shards': 16, 'budget_s': 80 if tier == 'quick' else 1800, 'exhaustive': True,
         'rule': 'exhaustive sequences of file events {write(file in a,b,c; content class), remove(file)} each '
-                'followed by a real scan_policies() on a real directory with strictly increasing mtimes, to depth %d '
-                'over the first two files and 8 content classes (quick) / 3 files (thorough), random sequences to depth '
+                'followed by a real scan_policies() on a real directory with strictly increasing mtimes, to depth 4 '
+                'over the first two files and 8 content classes (quick) / to depth 4 over three files and to depth %d over '
+                'two files (thorough), random sequences to depth '
                 '25 over all 12 content classes with several events per scan; plus JSON documents valid in every '
                 'documented shape and invalid at every position through read_policy_from_file; after every scan the '
                 'policy store is compared with a per-file reference model; a cell is (store shape, event, verdict)' % depth,
@@ -61,9 +62,17 @@ def plan(tier):
 
 def cases(tier, seed):
     cs = []
-    first_events = events(FILES[:2] if tier == 'quick' else FILES, QUICK_ALPHABET)
-    for i, ev in enumerate(first_events):
-        cs.append({'prefix': ev, 'depth': 4 if tier == 'quick' else 5})
+    # two-event prefixes keep the exhaustive part evenly spread over the shards
+    spaces = [(2, 4)] if tier == 'quick' else [(3, 4), (2, 5)]
+    for nfiles, depth in spaces:
+        evs = events(FILES[:nfiles], QUICK_ALPHABET)
+        for e1 in evs:
+            if e1[0] == 'r':
+                continue            # removing a file from an empty directory is a no-op
+            for e2 in evs:
+                if e2[0] == 'r' and e2[1] != e1[1]:
+                    continue
+                cs.append({'prefix': [e1, e2], 'depth': depth, 'nfiles': nfiles})
     n = 48 if tier == 'quick' else 400
     cs += [{'random': i} for i in range(n)]
     cs += [{'documents': i} for i in range(4 if tier == 'quick' else 16)]
@@ -319,13 +328,15 @@ def dfs(ctx, d, prefix, depth, files, alphabet, counter):
                 run(seq + [ev])
             else:
                 rec(seq + [ev])
-    rec([prefix])
+    if not all(run(list(prefix[:i])) for i in range(1, len(prefix))):
+        return
+    rec(list(prefix))
 
 
 def run_case(ctx, case):
     with rig.scratch_dir() as d:
         if 'prefix' in case:
-            files = FILES[:2] if ctx.tier == 'quick' else FILES
+            files = FILES[:case.get('nfiles', 2)]
             dfs(ctx, d, case['prefix'], case['depth'], files, QUICK_ALPHABET, [0])
             ctx.sample({'prefix': case['prefix'], 'depth': case['depth']})
         elif 'random' in case:
